@@ -88,7 +88,7 @@ func inspectZip(sc *scen, br blob.Ref, data []byte) *zipInfo {
 		return zi
 	}
 	zi := &zipInfo{data: data, contains: map[blob.Ref]bool{}}
-	if len(zipCache) > 256 {
+	if len(zipCache) > 40 {
 		zipCache = map[blob.Ref]*zipInfo{}
 	}
 	zipCache[br] = zi
